@@ -137,7 +137,7 @@ GVC_NOTE = 'gvc parses the real parser sources on every run; callee CONTRACTS (n
 REPLAY = dict(module='vx.replayeng', tier='thorough')
 PROPS['C01'] = dict(
     title='lossless tree',
-    units=['conv', 'derive', 'getstr', 'iter', 'loc'],
+    units=['conv', 'derive', 'getstr', 'iter', 'loc', 'wrap'],
     engines=[dict(module='gvc.engine', args=dict(analyses=('faithful', 'nullable')))],
     shims=['A-nom', 'A-packrat', 'A-strconcat', 'A-node', 'A-vec', 'A-str'],
     design='DESIGN.md 3/C01',
